@@ -81,6 +81,22 @@ fn check_pair(st: &mut St<X>, a: u8, b: u8) {
     // every way of making the same two-card hand scores the same: the array conversions, the hand's own sort,
     // the text parser (both renderings) and the bit-set conversion (which may order the two cards as it likes)
     {
+        let seps: &[char] = &[' ', '\t', '\n', '\u{0B}', '\u{0C}', '\r', '\u{85}', '\u{A0}', '\u{1680}', '\u{2000}', '\u{2003}', '\u{2009}', '\u{200A}', '\u{2028}', '\u{2029}', '\u{202F}', '\u{205F}', '\u{3000}'];
+        // the text parser splits on Unicode white space: the same hand written with each separator scores the same
+        for (k, &sep) in seps.iter().enumerate() {
+            let t: &'static str = Box::leak(format!("{}{}{}", model::card_name(a), sep, model::card_name(b)).into_boxed_str());
+            st.rep.evaluations += 1;
+            match Two::try_from(t) {
+                Ok(h) => {
+                    let s = h.chen_formula() as i32;
+                    if s != want {
+                        st.rep.violation("the score equals Bill Chen's formula (hand made through another constructor)", &format!("Two::try_from(&str) with separator U+{:04X} then chen_formula", sep as u32), inp(), format!("{}", want), format!("{} for the hand {:08X?}", s, h.to_arr()));
+                    }
+                }
+                Err(_) => st.rep.violation("the score equals Bill Chen's formula (hand made through another constructor)", &format!("Two::try_from(&str) with separator U+{:04X}", sep as u32), inp(), format!("a hand scoring {}", want), "no hand".into()),
+            }
+            let _ = k;
+        }
         let txt = |glyph: bool| -> &'static str {
             let one = |i: u8| {
                 if glyph {
